@@ -538,7 +538,7 @@ def c10(tier, seed):
     for n in range(0, 5):
         fam = "s%d" % n
         out.append(spec("verif_c04", "c04.rs", "c04_diff", "c04_diff_%s" % fam, [fam], 36,
-                        tier="quick" if n <= 3 else "thorough", n=n, fam=fam, mem=3 if n >= 3 else 1, timeout=3000,
+                        tier="quick" if n <= 2 else "thorough", n=n, fam=fam, mem=3 if n >= 3 else 1, timeout=3600,
                         optional=(n == 4),
                         covers={"reached": "SATISFIED", "npn arm": "SATISFIED"},
                         what="Lut%d vs Lut: p/n/npn_canonization return the same representative, permutation and mask on the same symbolic function" % n))
